@@ -80,7 +80,9 @@ META = dict(
                "prettyprinter.go byte for byte; Go's own parse-print-parse / evaluate round trip on generated programs"),
     level_text=("Proof: for operator trees of ANY depth over the real table, outside the known class mul-right-brackets, the "
                 "printer's local bracket rule yields admissible parentheses and the Pratt parser reads the printed tokens back "
-                "to the same tree (hence idempotence there); lex(quote s)=s for every string, kind preserved for non-raw "
+                "to the same tree (hence idempotence there); lex(quote v)=v with allowEscapes=true for EVERY byte string on the real printer "
+                "and lexer models (Ecal.Print.quote / Ecal.Lex.lexValue); terminal and prefix templates re-parse on the real parser "
+                "model (Ecal.Parse.run); kind preserved for non-raw "
                 "literals; negative witnesses for the two known classes. Statements, comments, blank lines: differential test "
                 "only (text identical to the model printer; Go round trip)."),
     level_note=("Trusted: Lean kernel + propext/Classical.choice/Quot.sound; the extractor; the harness' tree equality. "
